@@ -1296,17 +1296,23 @@ func (p *constructPlan) Execute(ctx context.Context) (*table.Table, error) {
 		done <- true
 	}()
 
+	// fail stops the background writer before reporting the error.
+	fail := func(err error) (*table.Table, error) {
+		close(tripChan)
+		<-done
+		return nil, err
+	}
 	for _, cc := range p.stm.ConstructClauses() {
 		for _, r := range tbl.Rows() {
 			t, err := p.processConstructClause(cc, tbl, r)
 			if err != nil {
-				return nil, err
+				return fail(err)
 			}
 			if len(cc.PredicateObjectPairs()) > 1 {
 				// We need to reify a blank node.
 				rts, bn, err := t.Reify()
 				if err != nil {
-					return nil, fmt.Errorf("triple.Reify failed to reify %v with error %v", t, err)
+					return fail(fmt.Errorf("triple.Reify failed to reify %v with error %v", t, err))
 				}
 				for _, trpl := range rts[1:] {
 					tripChan <- trpl
@@ -1314,11 +1320,11 @@ func (p *constructPlan) Execute(ctx context.Context) (*table.Table, error) {
 				for _, pop := range cc.PredicateObjectPairs()[1:] {
 					rprd, robj, err := p.processPredicateObjectPair(pop, tbl, r)
 					if err != nil {
-						return nil, err
+						return fail(err)
 					}
 					rt, err := triple.New(bn, rprd, robj)
 					if err != nil {
-						return nil, err
+						return fail(err)
 					}
 					tripChan <- rt
 				}
